@@ -148,6 +148,8 @@ class Values(object):
 
     def text(self, r, lo, hi):
         n = r.randint(lo, min(hi, max(lo, lo + 7)))
+        if self.flavor == 'markup' and ' ' not in self.avoid and r.random() < .08:
+            return ' ' * n          # an all-blank value satisfies an AN definition
         s = ''.join(r.choice(self.alpha) for _ in range(n))
         if s.endswith(' '):
             s = s[:-1] + r.choice(self.base)
